@@ -69,6 +69,10 @@ def gen_instance(rng, iid, family='random', nmax_geos=6):
   else:
     elig = rng.choices(CLASSES, weights=CLASS_W, k=n)
     default_elig = False
+  if family == 'constraints' and n >= 3 and rng.random() < 0.25:
+    # many geos that must be in one of the two groups: forced control groups larger than admissible sizes
+    elig = [rng.choice(['ct', 'ct', 'ctx', 'ctx', 'c', 'cx']) for _ in range(n)]
+    default_elig = False
   if family == 'degenerate':
     mode = rng.choice(['no_c', 'no_t', 'all_x', 'all_fixed', 'one_side'])
     if mode == 'no_c':
@@ -82,7 +86,10 @@ def gen_instance(rng, iid, family='random', nmax_geos=6):
     else:
       elig = [rng.choice(['c', 'ctx']) for _ in range(n)]
     default_elig = False
-  p = {'n_test': n_test, 'iroas': rng.choice([0.5, 1.0, 2.0, 3.0]), 'n_pretest_max': npm,
+  iroas = rng.choice([0.5, 1.0, 2.0, 3.0])
+  if rng.random() < (0.2 if family in ('degenerate', 'tiny') else 0.04):
+    iroas = rng.choice([0.0, 0])          # the documented domain is iroas >= 0
+  p = {'n_test': n_test, 'iroas': iroas, 'n_pretest_max': npm,
        'n_designs': rng.choice([1, 1, 2, 3, 5, 50]),
        'sig_level': rng.choice([0.9, 0.9, 0.8]), 'power_level': rng.choice([0.8, 0.8, 0.9]),
        'min_corr': rng.choice([0.8, 0.8, 0.9]), 'rho_max': rng.choice([0.995, 0.995, 0.95, 0.9]),
@@ -260,16 +267,25 @@ def project_design(inst, d, ids, which, scale=1.0):
   return out
 
 
-def run_search(inst, which, variant=None):
-  """Runs one search of the real code on a fresh object; returns the projected result record."""
-  scale = (variant or {}).get('scale', 1.0)
+def perturb_caller_objects(par, df):
+  """After a search the caller is free to reuse its own objects: the returned designs must not depend on them."""
+  par.min_corr = 0.8 if par.min_corr >= 0.9 else 0.97
+  par.n_test = par.n_test + 1
+  par.sig_level, par.power_level = 0.6, 0.55
+  par.flevel = 0.99
+  par.n_pretest_max = max(4, par.n_pretest_max - 3)
+  df['response'] = df['response'] * 3.0 + 1.0
+
+
+def _outcome(inst, ids_fn, which, scale, thunk, after=None):
+  """Runs thunk (a search of the real code) and projects what it returns; exceptions are outcomes."""
   try:
-    from matched_markets.methodology import tbrmatchedmarkets
-    data, par, ids = build_objects(inst, variant)
-    mmo = tbrmatchedmarkets.TBRMatchedMarkets(data, par)
-    res = mmo.exhaustive_search() if which == 'exh' else mmo.greedy_search()
+    res = thunk()
     if not isinstance(res, list):
       return {'status': 'crash', 'designs': [], 'error': 'returned %s' % type(res).__name__}
+    if after is not None:
+      after()
+    ids = ids_fn()
     return {'status': 'ok', 'designs': [project_design(inst, d, ids, which, scale) for d in res], 'error': ''}
   except ValueError as e:
     return {'status': 'valueerror', 'designs': [], 'error': 'ValueError: %s' % e}
@@ -283,10 +299,99 @@ def run_search(inst, which, variant=None):
     return {'status': 'crash', 'designs': [], 'error': '%s: %s at %s' % (type(e).__name__, e, where)}
 
 
+def run_search(inst, which, variant=None):
+  """Runs one search of the real code on a fresh object; returns the projected result record."""
+  variant = dict(variant or {})
+  scale = variant.get('scale', 1.0)
+  keep = {}
+  variant['keep'] = keep
+  box = {}
+
+  def thunk():
+    from matched_markets.methodology import tbrmatchedmarkets
+    data, par, ids = build_objects(inst, variant)
+    box['ids'], box['par'] = ids, par
+    mmo = tbrmatchedmarkets.TBRMatchedMarkets(data, par)
+    return mmo.exhaustive_search() if which == 'exh' else mmo.greedy_search()
+
+  def after():
+    if inst.get('perturb_after'):
+      perturb_caller_objects(box['par'], keep['df'])
+  return _outcome(inst, lambda: box['ids'], which, scale, thunk, after)
+
+
+def run_shared(a, b):
+  """Two searchers built on ONE TBRMMData object (the documented way to try several parameter sets).
+
+  mode 'interleaved' (same n_pretest_max): A.count, B.count, A.exh, B.exh, A.exh again, B.greedy, A.greedy - A is judged on
+  its second exhaustive result, i.e. after B has used the shared data object.
+  mode 'sequential' (B has a smaller n_pretest_max): A searches first, then B is built on the same data; only B is judged
+  afterwards (A's window has legitimately been truncated by B's construction).
+  """
+  from matched_markets.methodology import tbrmatchedmarkets
+  mode = a['shared_mode']
+  keep = {}
+  box = {}
+
+  def construct():
+    data, par_a, ids = build_objects(a, {'keep': keep})
+    _, par_b, _ = build_objects(b, {})
+    box.update(data=data, par_a=par_a, par_b=par_b, ids=ids)
+  try:
+    construct()
+  except ValueError as e:
+    r = {'status': 'valueerror', 'designs': [], 'error': 'ValueError: %s' % e}
+    a['exh'] = a['greedy'] = b['exh'] = b['greedy'] = r
+    return
+  ids = box['ids']
+
+  def out(inst, which, thunk):
+    return _outcome(inst, lambda: ids, which, 1.0, thunk)
+  mk = lambda par: tbrmatchedmarkets.TBRMatchedMarkets(box['data'], par)
+  if mode == 'interleaved':
+    try:
+      ma, mb = mk(box['par_a']), mk(box['par_b'])
+    except ValueError as e:
+      r = {'status': 'valueerror', 'designs': [], 'error': 'ValueError: %s' % e}
+      a['exh'] = a['greedy'] = b['exh'] = b['greedy'] = r
+      return
+    for m in (ma, mb):
+      try:
+        m.count_max_designs()
+      except Exception:  # pylint: disable=broad-except
+        pass
+    out(a, 'exh', ma.exhaustive_search)
+    b['exh'] = out(b, 'exh', mb.exhaustive_search)
+    a['exh'] = out(a, 'exh', ma.exhaustive_search)
+    b['greedy'] = out(b, 'greedy', mb.greedy_search)
+    a['greedy'] = out(a, 'greedy', ma.greedy_search)
+  else:
+    a['exh'] = out(a, 'exh', lambda: mk(box['par_a']).exhaustive_search())
+    a['greedy'] = out(a, 'greedy', lambda: mk(box['par_a']).greedy_search())
+    holder = {}
+
+    def build_b():
+      holder['mb'] = mk(box['par_b'])
+      return holder['mb'].exhaustive_search()
+    b['exh'] = out(b, 'exh', build_b)
+    b['greedy'] = out(b, 'greedy', lambda: (holder.get('mb') or mk(box['par_b'])).greedy_search())
+
+
 def run_instance(inst):
   t0 = time.time()
-  inst['exh'] = run_search(inst, 'exh')
-  inst['greedy'] = run_search(inst, 'greedy')
+  if inst.get('partner') is not None:
+    b = inst['partner']
+    try:
+      run_shared(inst, b)
+    except Exception as e:  # pylint: disable=broad-except
+      r = {'status': 'crash', 'designs': [], 'error': 'harness/shared: %s: %s' % (type(e).__name__, e)}
+      for x in (inst, b):
+        x.setdefault('exh', r)
+        x.setdefault('greedy', r)
+    b['cost_s'] = 0.0
+  else:
+    inst['exh'] = run_search(inst, 'exh')
+    inst['greedy'] = run_search(inst, 'greedy')
   inst['cost_s'] = time.time() - t0
   return inst
 
@@ -359,6 +464,52 @@ FAMILIES = {
 }
 
 
+def make_partner(rng, a, iid):
+  """A second parameter set for the same panel and eligibility (both searchers share ONE data object).
+
+  interleaved: the two parameter sets admit different geo sets - half of the time crafted so that both admit the same
+  NUMBER of geos (A drops the largest geo through the share cap, B the lowest-impact geo through n_geos_max);
+  sequential: B comes later with a smaller n_pretest_max, half of the time with otherwise identical parameters.
+  """
+  b = {k: v for k, v in a.items() if k not in ('partner', 'tab', 'exh', 'greedy')}
+  b['par'] = dict(a['par'])
+  b['id'] = iid
+  b['family'] = a['family'] + '+partner'
+  b['is_partner'] = True
+  b['budget'] = None
+  n = a['n']
+  if a['shared_mode'] == 'sequential':
+    b['par']['n_pretest_max'] = max(a['par']['n_test'] + 3, min(a['par']['n_pretest_max'], a['n_dates']) - rng.randint(1, 6))
+    b['par']['n_designs'] = rng.choice([1, 2, 5])
+    if rng.random() < 0.5:
+      b['want_budget'] = a['want_budget']
+      b['budget_mode'] = a['budget_mode']
+      return b
+  if rng.random() < 0.5 and n >= 3:
+    # crafted: equal-sized but different admitted sets
+    tot = {g: sum(v for (gg, _), v in a['cells'].items() if gg == g) for g in range(1, n + 1)}
+    order = sorted(tot.values(), reverse=True)
+    cap = int(100 * (order[0] + order[1]) / 2.0 / sum(order))
+    if 1 < cap < 99 and 100 * order[1] < cap * sum(order) < 100 * order[0]:
+      a['share'] = (1, 100, cap, 100)
+      a['nmax'] = 0
+      a['want_budget'] = False
+      b['share'] = (0, 0, 0, 0)
+      b['nmax'] = max(2, n - 1)
+      b['want_budget'] = False
+      b['par']['n_designs'] = rng.choice([2, 3, 5])
+      a['par']['n_designs'] = rng.choice([2, 3, 5])
+      return b
+  b['nmax'] = 0 if a['nmax'] else rng.randint(max(2, n - 2), max(2, n - 1))
+  if rng.random() < 0.5:
+    lo = rng.randint(1, 10)
+    b['share'] = (0, 0, 0, 0) if a['share'][1] else (lo, 100, rng.randint(30, 70), 100)
+  b['want_budget'] = not a['want_budget']
+  b['tr'] = a['tr'] if rng.random() < 0.5 else (0, 0)
+  b['par']['n_designs'] = rng.choice([1, 2, 5])
+  return b
+
+
 def make_instances(seed, owner, count, nmax_geos=6):
   rng = random.Random(seed * 1000003 + sum(map(ord, owner)))
   fams = FAMILIES.get(owner, FAMILIES['C01'])
@@ -369,12 +520,19 @@ def make_instances(seed, owner, count, nmax_geos=6):
     if owner == 'C13':
       inst['share'] = (0, 0, 0, 0)
       inst['want_budget'] = False
+    inst['perturb_after'] = rng.random() < 0.5
     insts.append(inst)
+    if owner in ('C01', 'C03', 'C04') and inst['n'] >= 3 and inst['n'] <= 5 and rng.random() < 0.3:
+      inst['shared_mode'] = rng.choice(['interleaved', 'sequential'])
+      inst['partner'] = make_partner(rng, inst, 100000 + inst['id'])
+      inst['perturb_after'] = False
   return insts
 
 
 def _prep(inst):
   try:
+    if inst.get('partner') is not None:
+      attach_oracle(inst['partner'])
     return attach_oracle(inst)
   except Exception as e:  # pylint: disable=broad-except
     inst['tab'] = None
@@ -389,7 +547,10 @@ def public(inst):
           'default_elig': inst['default_elig'], 'par': inst['par'], 'tr': inst['tr'], 'cr': inst['cr'],
           'gtol': inst['gtol'], 'vtol': inst['vtol'], 'share': inst['share'], 'nmax': inst['nmax'],
           'budget': inst['budget'], 'want_budget': False, 'budget_mode': inst['budget_mode'],
-          'ids_kind': inst['ids_kind'], 'extra_elig_row': inst['extra_elig_row'], 'shuffle_seed': inst['shuffle_seed']}
+          'ids_kind': inst['ids_kind'], 'extra_elig_row': inst['extra_elig_row'], 'shuffle_seed': inst['shuffle_seed'],
+          'perturb_after': bool(inst.get('perturb_after')), 'shared_mode': inst.get('shared_mode'),
+          'is_partner': bool(inst.get('is_partner')),
+          'partner': public(inst['partner']) if inst.get('partner') is not None else None}
 
 
 def from_public(p):
@@ -399,6 +560,8 @@ def from_public(p):
     inst[k] = tuple(inst[k])
   if inst['budget'] is not None:
     inst['budget'] = tuple(inst['budget'])
+  if inst.get('partner') is not None:
+    inst['partner'] = from_public(inst['partner'])
   return inst
 
 
@@ -418,8 +581,17 @@ def run_search_clauses(res, owner, count=None):
   dropped = [i for i in insts if i['tab'] is None or i['tab']['margin'] < oracle.REL]
   insts = [i for i in insts if not (i['tab'] is None or i['tab']['margin'] < oracle.REL)]
   res.extra['dropped_nongeneric'] = res.extra.get('dropped_nongeneric', 0) + len(dropped)
+  def generic(i):
+    return i['tab'] is not None and i['tab']['margin'] >= oracle.REL
+  for i in insts:
+    if i.get('partner') is not None and not generic(i['partner']):
+      i['partner'] = None
   insts = par_mod.pmap(run_instance, insts, chunksize=1)
+  partners = [i['partner'] for i in insts if i.get('partner') is not None]
+  res.extra['search_shared_data_pairs'] = res.extra.get('search_shared_data_pairs', 0) + len(partners)
+  insts = insts + partners
   verdicts = judge(res, insts, owner)
+  primary_of = {i['partner']['id']: i for i in insts if i.get('partner') is not None}
   stats = {'instances': len(insts), 'exh_nonempty': 0, 'greedy_nonempty': 0, 'valueerror': 0, 'with_obligations': 0,
            'k_binds': 0, 'budget': 0, 'share': 0, 'nmax': 0, 'designs_judged': 0, 'crash': 0}
   other = {}
@@ -442,8 +614,9 @@ def run_search_clauses(res, owner, count=None):
       if not c.startswith(owner + ':'):
         other[c] = other.get(c, 0) + 1
     for c in mine:
-      res.violate(c.split(':', 1)[1], {'kind': 'search', 'instance': public(inst), 'observed': summarize(inst),
-                                       'facts': v['facts']},
+      root = primary_of.get(inst['id'], inst)
+      res.violate(c.split(':', 1)[1], {'kind': 'search', 'instance': public(root), 'judged': inst['id'],
+                                       'observed': summarize(inst), 'facts': v['facts']},
                   'MMTrace rejects the recorded results: clause %s; exhaustive=%s greedy=%s' % (
                       c, summarize(inst)['exhaustive'], summarize(inst)['greedy']))
   for k, val in stats.items():
@@ -458,16 +631,19 @@ def run_search_clauses(res, owner, count=None):
 
 def replay_case(res, blob):
   c = blob['case']
-  inst = from_public(c['instance'])
-  inst = attach_oracle(inst)
+  inst = _prep(from_public(c['instance']))
   inst = run_instance(inst)
-  verdicts = judge(res, [inst], 'replay', nchunks=1)
+  group = [inst] + ([inst['partner']] if inst.get('partner') is not None else [])
+  verdicts = judge(res, group, 'replay', nchunks=1)
   res.traces += 1
   res.case_seen('replay')
   owner = blob['property']
-  for cl in verdicts[inst['id']]['fails']:
-    if cl.startswith(owner + ':'):
-      res.violate(cl.split(':', 1)[1], c, 'still rejected: %s' % summarize(inst))
+  for g in group:
+    if g['id'] != c.get('judged', inst['id']):
+      continue
+    for cl in verdicts[g['id']]['fails']:
+      if cl.startswith(owner + ':'):
+        res.violate(cl.split(':', 1)[1], c, 'still rejected: %s' % summarize(g))
 
 
 def vacuity_guard(res, owner, stats):
